@@ -1259,6 +1259,12 @@ impl ArchiveBuilder {
             // Multi-sector file
             let sector_count = file_data.len().div_ceil(*sector_size);
 
+            // A sector offset table is always written below, so the file must be
+            // flagged as compressed even if no sector shrinks: readers only look for
+            // the offset table (and per-sector keys) on files with this flag, and
+            // treat sectors whose stored size equals the expected size as raw.
+            flags |= BlockEntry::FLAG_COMPRESS;
+
             // Set CRC flag early if enabled (needed for encryption key calculation)
             if self.generate_crcs {
                 flags |= BlockEntry::FLAG_SECTOR_CRC;
